@@ -227,12 +227,42 @@ func (ex *Exec) typeTag(name string) string {
 // ---------- user-declared uninterpreted spec functions ----------
 
 type ufunInfo struct {
-	name  string
-	res   *Sort
-	resGo types.Type
+	decl *UFun
 }
 
-func (env *SpecEnv) ufun(name string) *ufunInfo { return nil }
+func (env *SpecEnv) ufun(name string) *ufunInfo {
+	for _, ps := range env.ex.prog.AllSpecs {
+		if uf, ok := ps.UFuns[name]; ok {
+			return &ufunInfo{decl: uf}
+		}
+	}
+	return nil
+}
+
+// ufunApply declares (per argument sorts) and applies a user-declared uninterpreted function.
+func (env *SpecEnv) ufunApply(uf *UFun, args []Val) Val {
+	ex := env.ex
+	var as []*Sort
+	var names []string
+	for i, a := range args {
+		s := a.S
+		if i < len(uf.Params) && uf.Params[i] != "_" {
+			if _, ps := env.tryResolveType(uf.Params[i]); ps != nil {
+				s = ps
+			}
+		}
+		as = append(as, s)
+		names = append(names, strings.Trim(s.Name, "|"))
+	}
+	rty, rs := env.resolveType(uf.Result)
+	n := sym("uf_" + uf.Name + "_" + strings.Join(names, "_"))
+	ex.w.declFun(n, as, rs)
+	var ts []string
+	for _, a := range args {
+		ts = append(ts, a.T)
+	}
+	return Val{T: sApp(n, ts...), S: rs, Go: rty}
+}
 
 func (ex *Exec) stdGlobal(pkg, name string) (Val, bool) {
 	// globals of packages outside the repo mentioned in contracts (e.g. context.Canceled)
@@ -364,7 +394,7 @@ func (ex *Exec) annotationsBefore(st *State, s ast.Stmt) {
 	for _, a := range as {
 		switch a.kind {
 		case "assert":
-			ex.oblige(st, "assert", nil, env.boolTerm(a.e), "assert "+a.src, a.pos)
+			ex.oblige(st, "assert", nil, env.goal(a.e), "assert "+a.src, a.pos)
 			st.assume(env.boolTerm(a.e))
 		case "assume":
 			ex.w.assumed["assume in "+fr.fi.FullName()+": "+a.src] = true
@@ -442,9 +472,105 @@ func (p *Program) annots(fi *FuncInfo) map[ast.Stmt][]bodyAnnot {
 
 // ---------- stubs filled in by later stages ----------
 
-func (ex *Exec) callCallback(st *State, ct *callTarget, k func(*State, []Val)) bool { return false }
+// callbackFor: a call `X.field(args)` through a function-typed struct field that has a
+// `callback Struct.field(self, params...)` block.
+func (ex *Exec) callbackFor(info *types.Info, x *ast.CallExpr, tsub map[*types.TypeParam]types.Type) (*Contract, *ast.SelectorExpr, *Package) {
+	sel, ok := ast.Unparen(x.Fun).(*ast.SelectorExpr)
+	if !ok {
+		return nil, nil, nil
+	}
+	s := info.Selections[sel]
+	if s == nil || s.Kind() != types.FieldVal {
+		return nil, nil, nil
+	}
+	tv, ok := info.Types[sel.X]
+	if !ok {
+		return nil, nil, nil
+	}
+	n, _, _ := structOf(substType(tv.Type, tsub))
+	if n == nil || n.Obj().Pkg() == nil {
+		return nil, nil, nil
+	}
+	pk := ex.prog.Pkgs[n.Obj().Pkg().Path()]
+	if pk == nil || pk.Spec == nil {
+		return nil, nil, nil
+	}
+	c := pk.Spec.Callbacks[n.Obj().Name()+"."+sel.Sel.Name]
+	if c == nil {
+		return nil, nil, nil
+	}
+	return c, sel, pk
+}
+
+func (ex *Exec) callCallback(st *State, ct *callTarget, k func(*State, []Val)) bool {
+	c, sel, pk := ex.callbackFor(st.frame.info, ct.call, st.frame.tsub)
+	if c == nil {
+		return false
+	}
+	if ct.sig.Results().Len() != 0 {
+		panic(unsupported("callback with results: " + c.Key))
+	}
+	ex.w.assumed["callback "+pk.Short+"."+c.Key+": its effect on state visible to the library is exactly its callback contract (ghost model); real effects are confined to caller state the library never reads"] = true
+	ex.safety(st, "safe.nilfunc", sNot(sEq(ct.fnVal.T, "nil")), "call of nil function", ct.call.Pos(), func(st *State) {
+		ex.expr(st, sel.X, func(st *State, self Val) {
+			n := 0
+			env := &SpecEnv{ex: ex, st: st, bind: map[string]Val{}, pkg: pk, fi: st.frame.fi, qn: &n, tsub: st.frame.tsub}
+			pre := st.snapshot()
+			env.old = pre
+			names := c.Params
+			if len(names) > 0 {
+				env.bind[names[0]] = self
+				names = names[1:]
+			}
+			for i, nm := range names {
+				if i < len(ct.args) {
+					env.bind[nm] = ct.args[i]
+				}
+			}
+			func() {
+				defer ex.specRecover("callback " + c.Key)
+				for _, g := range c.Ghosts {
+					env.ghostUpdate(g)
+				}
+				for _, e := range c.Ensures {
+					st.assume(env.boolTerm(e.E))
+				}
+			}()
+			k(st, nil)
+		})
+	})
+	return true
+}
+
 func (ex *Exec) callbackWriteKeys(ws *writeSet, info *types.Info, x *ast.CallExpr, tsub map[*types.TypeParam]types.Type) bool {
-	return false
+	c, sel, pk := ex.callbackFor(info, x, tsub)
+	if c == nil {
+		return false
+	}
+	defer func() {
+		if r := recover(); r != nil {
+			if _, ok := r.(specFail); ok {
+				ws.all = true
+				return
+			}
+			panic(r)
+		}
+	}()
+	tv := info.Types[sel.X]
+	st := substType(tv.Type, tsub)
+	n := 0
+	scratch := &State{heap: map[string]string{}}
+	env := &SpecEnv{ex: ex, st: scratch, old: scratch, bind: map[string]Val{}, pkg: pk, qn: &n, tsub: tsub}
+	if len(c.Params) > 0 {
+		env.bind[c.Params[0]] = Val{T: "dummy_self", S: ex.w.sortOf(st), Go: st}
+	}
+	saveEntry := ex.entry
+	ex.entry = nil
+	defer func() { ex.entry = saveEntry }()
+	for _, t := range env.evalModifies(c) {
+		ws.keys[t.key] = t.sort
+	}
+	return true
 }
 func (ex *Exec) chanWriteKeys(ws *writeSet) { ws.all = true }
 func (ex *Exec) selectStmt(st *State, s *ast.SelectStmt, k func(*State)) {
